@@ -275,6 +275,23 @@ fn check_cli(c: &Case, ctx: &Ctx) -> Outcome {
             let exp = tab(order[0]).merge(tab(order[1])).merge(tab(order[2]));
             model::compare_nk(&nk(ctx, &dir, &format!("{out}.skf"))?, &exp, k, rc, Some(k_bits_for(k))).map_err(|m| Outcome::Fail(format!("merge {order:?}: {m}")))?;
         }
+        // a square table (as many split k-mers as samples: n samples sharing one contig of k+n-1 bases), weeded by
+        // its first window: one row less, every sample still there
+        {
+            let nq = 2 + k % 5;
+            let mut seen = std::collections::HashSet::new();
+            if let Some(contig) = gen::unique_seq(&gen::filler(k + 9, k), k + nq - 1, k, true, &mut seen) {
+                let sq: Vec<Sample> = (0..nq).map(|j| (format!("q{j}"), vec![contig.clone()])).collect();
+                let tq = model_table(&sq, k, rc).1;
+                if tq.rows.len() == nq {
+                    must_ok(&build(ctx, &dir, "sq", &sq, k, rc, 1), "ska build (square table)")?;
+                    cli::write_fasta_auto(&dir.join("sqw.fa"), &[contig[..k].to_vec()], None);
+                    must_ok(&run_ska(ctx, &dir, &["weed", "sq.skf", "sqw.fa", "--min-freq", "0", "-o", "sqw.skf"]), "ska weed on a table with as many k-mers as samples")?;
+                    let wq = model::build_sample(&[contig[..k].to_vec()], k, rc).keys().cloned().collect();
+                    model::compare_nk(&nk(ctx, &dir, "sqw.skf")?, &tq.weed(&wq, false), k, rc, Some(k_bits_for(k))).map_err(|m| Outcome::Fail(format!("weed on a {nq} x {nq} table: {m}")))?;
+                }
+            }
+        }
         // names derived from file names given on the command line may hold blanks ("strain A.fa"): they are kept as
         // they are through save, reload and merge
         if k % 3 != 1 {
